@@ -286,7 +286,7 @@ func (rn *runner) caseC18(x []byte, src string, expect []string) {
 		if !okp || fmt.Sprint(lits) != fmt.Sprint(expect) {
 			res.Count("generator-rejected-by-go/parser")
 			if rn.shrunk["genrej"]++; rn.shrunk["genrej"] <= 3 {
-				res.Notes = append(res.Notes, fmt.Sprintf("generated file not accepted by go/parser with the expected imports (generator issue, case skipped for the grammar oracle): %q", x))
+				res.Notes = append(res.Notes, fmt.Sprintf("generated file not accepted by go/parser with the expected imports (generator issue, case skipped for the grammar oracle): %s", clip(fmt.Sprintf("%q", x))))
 			}
 		} else {
 			res.Count("generator-validated-by-go/parser")
